@@ -272,7 +272,10 @@ def gen(rng, shape=None, allow_tiny=True):
         sweep = min(ratio * res / r, 2 * math.pi - 0.2)
         a1 = a0 + sgn * sweep
         t = [c[0] + r * math.cos(a1), c[1] + r * math.sin(a1), s[2]]
-        req.update(target=t, center=c, centers=[c], r=r, hasz=False, far=sweep > 0.3, len=r * sweep)
+        # far=False: the angular clauses of C10 (sweep, direction) are built for radii of at least four resolutions; on these
+        # small radii their fixed-point angles are too coarse (a false alarm in the thorough tier showed it). End point, radius
+        # and the segment-length clauses of C12 -- what the fillets are for -- are judged.
+        req.update(target=t, center=c, centers=[c], r=r, hasz=False, far=False, len=r * sweep)
         return req
     if shape in ("arc", "circle"):
         r = rng.uniform(4 * res, 45)
